@@ -533,6 +533,8 @@ class Component(CaselessDict):
         return f"{self.name or type(self).__name__}({dict(self)}{', ' + subs if subs else ''})"
 
     def __eq__(self, other):
+        if not isinstance(other, Component):
+            return False
         if len(self.subcomponents) != len(other.subcomponents):
             return False
 
@@ -544,9 +546,15 @@ class Component(CaselessDict):
         # neither there's a natural key we can sort the subcomponents by nor
         # are the subcomponent types hashable, so  we cant put them in a set to
         # check for set equivalence. We have to iterate over the subcomponents
-        # and look for each of them in the list.
+        # and look for each of them in the list. Every subcomponent of other
+        # is matched at most once, so that duplicates are counted.
+        unmatched = list(other.subcomponents)
         for subcomponent in self.subcomponents:
-            if subcomponent not in other.subcomponents:
+            for index, candidate in enumerate(unmatched):
+                if subcomponent == candidate:
+                    del unmatched[index]
+                    break
+            else:
                 return False
 
         return True
